@@ -383,6 +383,8 @@ impl<'c, 'ch: 'c> Records<'c, 'ch> {
             record.features.push(feature);
         }
 
+        validate_features(record.read_length, &record.features)?;
+
         record.mapping_quality = self.read_mapping_quality()?;
 
         if record.cram_flags.quality_scores_are_stored_as_array() {
@@ -661,6 +663,67 @@ impl<'c, 'ch: 'c> Records<'c, 'ch> {
         } else {
             Ok(src)
         }
+    }
+}
+
+// Validates that the features are ordered, do not overlap, and are in the read.
+//
+// The sequence, quality scores, CIGAR operations, and alignment span of a record are built from its
+// features when they are used, which cannot return an error.
+fn validate_features(read_length: usize, features: &[Feature<'_>]) -> io::Result<()> {
+    // The first positions that are not covered by the previous features.
+    let mut read_position: usize = 1;
+    let mut quality_score_position: usize = 1;
+
+    for feature in features {
+        let position = usize::from(feature.position());
+
+        let base_count = match feature {
+            Feature::Bases { bases, .. }
+            | Feature::Insertion { bases, .. }
+            | Feature::SoftClip { bases, .. } => Some(bases.len()),
+            Feature::ReadBase { .. }
+            | Feature::Substitution { .. }
+            | Feature::InsertBase { .. } => Some(1),
+            Feature::Deletion { .. }
+            | Feature::ReferenceSkip { .. }
+            | Feature::Padding { .. }
+            | Feature::HardClip { .. } => Some(0),
+            Feature::Scores { .. } | Feature::QualityScore { .. } => None,
+        };
+
+        if let Some(n) = base_count {
+            if position < read_position {
+                return Err(io::Error::new(
+                    io::ErrorKind::InvalidData,
+                    "invalid record: features overlap",
+                ));
+            }
+
+            read_position = position.saturating_add(n);
+        }
+
+        let quality_score_count = match feature {
+            Feature::Scores { quality_scores, .. } => quality_scores.len(),
+            Feature::ReadBase { .. } | Feature::QualityScore { .. } => 1,
+            _ => 0,
+        };
+
+        if quality_score_count > 0 {
+            quality_score_position = quality_score_position
+                .max(position)
+                .saturating_add(quality_score_count);
+        }
+    }
+
+    // A feature that has no bases can be placed after the last base.
+    if read_position.max(quality_score_position) - 1 <= read_length {
+        Ok(())
+    } else {
+        Err(io::Error::new(
+            io::ErrorKind::InvalidData,
+            "invalid record: features are out of range of the read",
+        ))
     }
 }
 
